@@ -81,6 +81,15 @@ func judgeC08(c c08Case) []Violation {
 	w := base.world()
 	defer w.Close()
 	var vs []Violation
+	if c.How == "export" && c.Switch >= 0 && c.Switch%2 == 0 {
+		// the export has an allow-list (which admits the harness's clients): the documented way of switching to
+		// read-only later re-submits the same list together with ReadOnly
+		opts := w.srv.NFS.GetExportOptions()
+		opts.AllowedIPs = []string{"127.0.0.1", "10.0.0.0/8", "192.168.0.0/16", "::1"}
+		if err := w.srv.NFS.UpdateExportOptions(opts); err != nil {
+			return nil
+		}
+	}
 	ro := c.Switch < 0
 	check := func(what string, proc uint32, rep Reply, res NfsRes, access bool) {
 		log := w.fs.TakeLog()
